@@ -7,7 +7,7 @@
 //! (`matchset` / `matchcount` op on the rows the sub-queries delivered, one zone per type; the pair
 //! tokens are sorted on both sides — the order of link groups in the response is not compared);
 //! other cases put `skip` on both sides.
-use super::{oracle, spec_rows, Case, Col, Lit, Op, Zone, E};
+use super::{oracle, spec_rows, Case, Cell, Col, Lit, Op, SpecRow, Zone, E};
 use snel_harness::enc::hexs;
 use snel_harness::out::{Args, Stream};
 use snel_harness::rng::Rng;
@@ -185,6 +185,34 @@ impl Job {
     fn ret_defect(&self) -> bool {
         self.ret.as_ref().is_some_and(|l| !l.contains(&"k") || !l.contains(&"t"))
     }
+    /// a-events (passing their own side) whose nearest same-link partner in time fails the b-side
+    /// WHERE while a farther partner passes it — decided on the stored events
+    fn shadowed_a_events(&self) -> usize {
+        let eva: Vec<&Ev> = self.evs.iter().filter(|e| !e.b).collect();
+        let evb: Vec<&Ev> = self.evs.iter().filter(|e| e.b).collect();
+        let ra = spec_rows(&[spec_zone_of(&eva)]);
+        let rb = spec_rows(&[spec_zone_of(&evb)]);
+        let mut n = 0;
+        for (a, row_a) in eva.iter().zip(ra.iter()) {
+            if a.k.is_none() || !super::side(&self.wh, &self.ta, row_a) {
+                continue;
+            }
+            let cands: Vec<(i64, bool)> = evb
+                .iter()
+                .zip(rb.iter())
+                .filter(|(b, _)| b.k == a.k && if self.preceded { b.t < a.t } else { b.t >= a.t })
+                .map(|(b, row_b)| (b.t, super::side(&self.wh, &self.tb, row_b)))
+                .collect();
+            let nearest = if self.preceded { cands.iter().map(|c| c.0).max() } else { cands.iter().map(|c| c.0).min() };
+            if let Some(nt) = nearest {
+                if cands.iter().any(|c| c.0 == nt && !c.1) && cands.iter().any(|c| c.0 != nt && c.1) {
+                    n += 1;
+                }
+            }
+        }
+        n
+    }
+
     fn query(&self, with_limit: bool) -> String {
         let mut q = format!("QUERY {} {} {} LINKED BY k USING TIME t", self.ta, if self.preceded { "PRECEDED BY" } else { "FOLLOWED BY" }, self.tb);
         if let Some(e) = &self.wh {
@@ -355,14 +383,55 @@ impl Job {
         // oracle
         let v = oracle(preceded, "t", "k", ta, tb, wh, limit, &ra, &rb, &pairs, parsed_unl.as_deref(), !(has_dups && limit.is_some()));
         j.judged_a = v.judged_a;
+        // Is a failure explained by what the per-type sub-queries delivered (C02/C07 defects of the
+        // plain read path)? Decided from the case's own data: the same statement evaluated on the
+        // rows and cell values the plain queries returned (before or after the sequence query) must
+        // hold. A failure that remains on those rows is not absorbed by that class.
+        let explained = |da_map: &BTreeMap<i64, Cells>, db_map: &BTreeMap<i64, Cells>| -> bool {
+            let build = |evl: &Vec<&Ev>, m: &BTreeMap<i64, Cells>| -> (Vec<SpecRow>, HashMap<i64, usize>) {
+                let mut rows = vec![];
+                let mut pos = HashMap::new();
+                for e in evl.iter().filter(|e| m.contains_key(&e.id)) {
+                    let (k, t, x, sv) = m[&e.id].clone();
+                    let mut cells = BTreeMap::new();
+                    cells.insert("context_id".to_string(), Cell::S(e.ctx.clone()));
+                    cells.insert("k".to_string(), Cell::I(k));
+                    cells.insert("t".to_string(), Cell::I(t));
+                    cells.insert("x".to_string(), Cell::I(x));
+                    if let Some(sv) = sv {
+                        cells.insert("s".to_string(), Cell::S(sv));
+                    }
+                    cells.insert("id".to_string(), Cell::I(Some(e.id)));
+                    pos.insert(e.id, rows.len());
+                    rows.push(SpecRow { zone: 0, idx: rows.len(), cells });
+                }
+                (rows, pos)
+            };
+            let (xa, pa) = build(&eva, da_map);
+            let (xb, pb) = build(&evb, db_map);
+            let map_pairs = |v: &[(usize, usize)]| -> Option<Vec<(usize, usize)>> {
+                v.iter().map(|&(i, jx)| Some((*pa.get(&eva[i].id)?, *pb.get(&evb[jx].id)?))).collect()
+            };
+            let Some(p2) = map_pairs(&pairs) else { return false };
+            let u2 = parsed_unl.as_ref().and_then(|u| map_pairs(u));
+            let v2 = oracle(preceded, "t", "k", ta, tb, wh, limit, &xa, &xb, &p2, u2.as_deref(), !(has_dups && limit.is_some()));
+            v2.failures.iter().all(|f| f.0 == "null-link-grouped")
+        };
+        let explained_by_subqueries = !v.failures.is_empty()
+            && subquery_differs
+            && (explained(&del_a, &del_b) || matches!((&pre_a, &pre_b), (Some(x), Some(y)) if explained(x, y)));
         let mut by_class: BTreeMap<String, String> = BTreeMap::new();
         for (cl, d) in v.failures {
             let cl = if ret_defect {
                 "return-omits-link-or-time".to_string()
-            } else if subquery_differs && cl != "null-link-grouped" {
+            } else if cl == "null-link-grouped" {
+                cl
+            } else if explained_by_subqueries {
                 "subquery-filter-differs".to_string()
             } else {
-                cl
+                // the sub-queries deliver only rows passing their side of the WHERE, so end-to-end a
+                // nearest partner that fails WHERE is not the known matcher-level class: unclassified
+                "-".to_string()
             };
             by_class.entry(cl).or_insert(d);
         }
@@ -436,11 +505,43 @@ pub fn run(a: &Args) {
             });
             next_id += 1;
         }
-        let wh = if r.chance(1, 2) { let d = r.below(3) as u32; Some(gen_where(&mut r, &ta, &tb, d)) } else { None };
-        let limit = if r.chance(1, 4) { Some(r.below(5) as usize) } else { None };
+        // planted shape (1 case in 4): a condition on the partner side only, and in one link group an
+        // a-event whose nearest partner in time fails it while a farther one passes — the shape on
+        // which "matched iff a qualifying partner exists" depends on the sub-queries pre-filtering
+        let shaped = r.chance(1, 4);
+        let mut wh = if r.chance(1, 2) { let d = r.below(3) as u32; Some(gen_where(&mut r, &ta, &tb, d)) } else { None };
+        if shaped {
+            let c = r.range(1, 4);
+            let (op, x_fail, x_pass) = match r.below(3) {
+                0 => (Op::Eq, if c == 4 { 0 } else { c + 1 }, c),
+                1 => (Op::Gte, c - 1, c),
+                _ => (Op::Lt, c, c - 1),
+            };
+            wh = Some(E::Cmp(format!("{tb}.x"), op, Lit::I(c)));
+            let mut fresh = |r: &mut Rng, lo: i64, hi: i64| -> i64 {
+                let mut t = r.range(lo, hi);
+                while used.contains(&t) {
+                    t = r.range(lo, hi);
+                }
+                used.insert(t);
+                t
+            };
+            // three increasing times; FOLLOWED BY: a, b(fail), b(pass); PRECEDED BY: b(pass), b(fail), a
+            let t1 = fresh(&mut r, 100, 130);
+            let t2 = fresh(&mut r, 140, 170);
+            let t3 = fresh(&mut r, 180, 210);
+            let kk = 7 + r.below(2) as i64; // a link value of its own
+            let plant = [(false, if preceded { t3 } else { t1 }, 0), (true, t2, x_fail), (true, if preceded { t1 } else { t3 }, x_pass)];
+            for (b, t, x) in plant {
+                evs.push(Ev { b, ctx: format!("c{}", r.below(4)), k: Some(kk), t, x, s: r.pick(&["u", "v", "ab"]).to_string(), id: next_id });
+                next_id += 1;
+            }
+        }
+        let (na, nb) = (evs.iter().filter(|e| !e.b).count(), evs.iter().filter(|e| e.b).count());
+        let limit = if !shaped && r.chance(1, 4) { Some(r.below(5) as usize) } else { None };
         // (a RETURN list with two or more payload fields comes back with permuted cells — C07/C20 —
         // so the only RETURN variants here are the ones that omit the link or the time field)
-        let ret: Option<Vec<&'static str>> = match r.below(10) {
+        let ret: Option<Vec<&'static str>> = match if shaped { 9 } else { r.below(10) } {
             0 => Some(match r.below(3) {
                 0 | 1 => vec!["id"],
                 _ => vec!["id", "k"],
@@ -509,6 +610,14 @@ pub fn run(a: &Args) {
             (Some(_), true) => "return:omits-link-or-time",
         });
         s.tally(if racing { "mode:racing-with-flush" } else { "mode:flushes-settled" });
+        if shaped {
+            s.tally("planted:b-side-condition-nearest-fails-farther-passes");
+        }
+        let shadowed = job.shadowed_a_events();
+        if shadowed > 0 {
+            s.tally(if preceded { "shape:preceded:case-with-a-whose-nearest-b-fails-where-and-farther-b-passes" } else { "shape:followed:case-with-a-whose-nearest-b-fails-where-and-farther-b-passes" });
+            s.tally_n("shape:a-events-whose-nearest-b-fails-where-and-farther-b-passes", shadowed as u64);
+        }
         if std::env::var("C15_TRACE").is_ok() {
             eprintln!("case {i} racing={racing}");
         }
